@@ -222,6 +222,58 @@ def run_select(ctx):
     for op, build, need in entry:
         for m, v in perm_cases:
             add(op, build({m: v}), None, None, perm=(need, {m: v}))
+    # --- the same rules where the names sit in the unprotected / per-recipient headers of the token handed in ---
+    few = lambda h, kind: [h] + [n_ for n_ in names[kind] if n_ != h][:4] + near(h)[:4] + extra[:2]
+    mk = [("jws.sig", {"jws": {"payload": "cGF5"}, "sig": {"header": {"alg": h}}, "jwk": key}) for h in ("HS256", "HS512")]
+    for (o, a_), r in zip(mk, ctx.real(mk)):
+        if r.get("ok"):
+            h = a_["sig"]["header"]["alg"]
+            for k in few(h, "sign"):
+                add("jws.ver", {"jws": r["jws"], "jwk": dict(key, alg=k)}, h, k)
+                add("jws.ver", {"jws": r["jws"], "jwk": {"keys": [dict(key, alg=k)]}, "all": False}, h, k)
+                add("jws.ver", {"jws": {"payload": r["jws"]["payload"], "signatures": [{x: y for x, y in r["jws"].items() if x != "payload"}]}, "jwk": dict(key, alg=k)}, h, k)
+    for place in ("unprotected", "recipient"):
+        jwe = {"protected": {"enc": "A128CBC-HS256"}} if place == "recipient" else {"unprotected": {"alg": "A128KW", "enc": "A128CBC-HS256"}}
+        a_ = {"jwe": jwe, "jwk": kw_key, "pt": "00", "rand": "11" * 100}
+        if place == "recipient":
+            a_["rcp"] = {"header": {"alg": "A128KW"}}
+        r = ctx.real([("jwe.enc", a_)])[0]
+        if r.get("ok"):
+            for k in few("A128KW", "wrap") + ["A128CBC-HS256", "A256CBC-HS512"]:
+                add("jwe.dec_jwk", {"jwe": r["jwe"], "jwk": dict(kw_key, alg=k), "rand": "00" * 64}, "A128KW", k, also="A128CBC-HS256")
+                add("jwe.dec", {"jwe": r["jwe"], "jwk": {"keys": [dict(kw_key, alg=k)]}, "rand": "00" * 64}, "A128KW", k, also="A128CBC-HS256")
+    cekU = {"kty": "oct", "k": b64u(rng.randbytes(16))}
+    rU = ctx.real([("jwe.enc_cek", {"jwe": {"unprotected": {"enc": "A128GCM"}}, "cek": cekU, "pt": "00", "rand": "22" * 32})])[0]
+    if rU.get("ok"):
+        for k in few("A128GCM", "encr"):
+            add("jwe.dec_cek", {"jwe": rU["jwe"], "cek": dict(cekU, alg=k)}, "A128GCM", k)
+    # a general-form token with two recipients, the key declares an algorithm: only its own recipient's matters
+    r2 = ctx.real([("jwe.enc", {"jwe": {"protected": {"enc": "A128GCM"}}, "rcp": [{"header": {"alg": "A128KW"}}, {"header": {"alg": "A256KW"}}],
+                                "jwk": [kw_key, pool["oct-32"]], "pt": "00", "rand": "11" * 200})])[0]
+    if r2.get("ok") and isinstance(r2["jwe"].get("recipients"), list):
+        for i_, (kk, w) in enumerate(((kw_key, "A128KW"), (pool["oct-32"], "A256KW"))):
+            for k in (w, "A128KW", "A256KW", "A192KW", "A128GCM"):
+                add("jwe.dec_jwk", {"jwe": r2["jwe"], "rcp": r2["jwe"]["recipients"][i_], "jwk": dict(kk, alg=k), "rand": "00" * 64}, w, k, also="A128GCM")
+    # --- asymmetric signing keys that declare another algorithm of their own family / of another family ---
+    for kn, h, others in (("RSA-2048", "RS256", ["PS256", "RS384", "RS256", "ES256"]), ("EC-P256", "ES256", ["ES384", "ES256K", "ES256", "RS256"]),
+                          ("EC-P384", "ES384", ["ES256", "ES384"])):
+        t_ = ctx.real([("jws.sig", {"jws": {"payload": "cGF5"}, "sig": {"protected": {"alg": h}}, "jwk": pool[kn]})])[0]
+        for k in others:
+            add("jws.sig", {"jws": {"payload": "cGF5"}, "sig": {"protected": {"alg": h}}, "jwk": dict(pool[kn], alg=k)}, h, k)
+            if t_.get("ok"):
+                add("jws.ver", {"jws": t_["jws"], "jwk": dict(K.public(pool[kn]), alg=k)}, h, k)
+    # --- permissions where the algorithm is inferred (nothing named in the template) ---
+    inf_entry = [("jws.sig", lambda k: {"jws": {"payload": "cGF5"}, "jwk": dict(pool["oct-32"], **k)}, "sign"),
+                 ("jws.sig", lambda k: {"jws": {"payload": "cGF5"}, "sig": {}, "jwk": dict(pool["EC-P256"], **k)}, "sign"),
+                 ("jwe.enc_jwk", lambda k: {"jwe": {}, "jwk": dict(kw_key, **k), "cek": {}, "rand": "33" * 64}, "wrapKey"),
+                 ("jwe.enc_cek", lambda k: {"jwe": {}, "cek": dict(cekA, **k), "pt": "00", "rand": "22" * 32}, "encrypt"),
+                 ("jwe.enc", lambda k: {"jwe": {}, "jwk": dict(pool["EC-P256"], **k), "pt": "00", "rand": "33" * 100}, "wrapKey")]
+    for op, build, need in inf_entry:
+        for m, v in perm_cases:
+            add(op, build({m: v}), None, None, perm=(need, {m: v}))
+    # both members at once, with the key also declaring the matching algorithm: key_ops decides
+    for md in ({"use": "enc", "key_ops": ["verify"], "alg": "HS256"}, {"use": "sig", "key_ops": ["sign"], "alg": "HS256"}, {"use": "sig", "key_ops": [], "alg": "HS256"}):
+        add("jws.ver", {"jws": toks["HS256"], "jwk": dict(key, **md)}, None, None, perm=("verify", {k_: v_ for k_, v_ in md.items() if k_ != "alg"}))
 
     def ok_of(op, r):
         if op in ("jws.sig", "jwe.enc_cek", "jwe.dec_cek", "jwe.enc_jwk", "jwe.dec", "jwe.enc"):
@@ -230,7 +282,12 @@ def run_select(ctx):
             return bool(r.get("r"))
         return "v" in r
 
-    real, model = ctx.compare(ops, None, lambda o, a, r: json.dumps(a, sort_keys=True)[:3000])
+    def verdict_only(op, args, r):
+        # produced tokens are C03/C04's business (and some are randomized): here the verdict
+        if op in ("jws.sig", "jwe.enc", "jwe.enc_jwk", "jwe.enc_cek") and isinstance(r, dict) and "crash" not in r:
+            return {"ok": bool(r.get("ok"))}
+        return r
+    real, model = ctx.compare(ops, None, lambda o, a, r: json.dumps(a, sort_keys=True)[:3000], canon=verdict_only)
     for (op, args), (halg, kalg, also, perm), r in zip(ops, meta, real):
         if "crash" in r:
             continue
